@@ -757,7 +757,10 @@ impl super::MainState {
                             if !chum.is_protected()
                                 && (!chum.is_half_operator() || !is_only_half_oper)
                             {
-                                kicked.push(kick_user);
+                                // kick the same user only once
+                                if !kicked.contains(&kick_user) {
+                                    kicked.push(kick_user);
+                                }
                             } else {
                                 self.feed_msg(
                                     &mut conn_state.stream,
